@@ -7,14 +7,6 @@ verus! {
 //@@ include automaton.inc
 //@@ include lemmas_scan.inc
 
-// MatchError constructors (util/error.rs): opaque values (assumption A-err)
-impl MatchError {
-    #[verifier::external_body]
-    fn unsupported_overlapping(got: MatchKind) -> MatchError { unimplemented!() }
-    #[verifier::external_body]
-    fn invalid_input_anchored() -> MatchError { unimplemented!() }
-}
-
 //@@ item src/automaton.rs | pub struct FindIter<'a, 'h, A>
 //@@ sigsub 1 /pub struct/ => struct
 //@@ end
